@@ -695,6 +695,14 @@ func explain(pred string) string {
 // ---------------------------------------------------------------------------------------------------------
 
 func failsSame(c *rig.Ctx, cs Case, class string) bool {
+	if os.Getenv("C10_TIMING") != "" {
+		t0 := time.Now()
+		defer func() {
+			if d := time.Since(t0); d > time.Second {
+				fmt.Fprintf(os.Stderr, "slow shrink candidate kind=%s steps=%d burst=%d reqs=%d: %v\n", cs.Kind, len(cs.Steps), len(cs.Burst), len(cs.Reqs), d)
+			}
+		}()
+	}
 	v := runCase(c, cs)
 	return v.Kind != "" && v.Class == class
 }
@@ -856,6 +864,14 @@ func classify(c *rig.Ctx, cs Case, v verdict, settled []bool) (nontrivial bool, 
 }
 
 func one(c *rig.Ctx, cs Case, origin string) {
+	if os.Getenv("C10_TIMING") != "" {
+		t0 := time.Now()
+		defer func() {
+			if d := time.Since(t0); d > time.Second {
+				fmt.Fprintf(os.Stderr, "slow case kind=%s: %v\n", cs.Kind, d)
+			}
+		}()
+	}
 	counting = true
 	v := runCase(c, cs)
 	counting = false
@@ -933,11 +949,14 @@ func main() {
 		}
 		// gateway level: real informer + queue + Run() (race), shipped TLS / authentication wiring (auth)
 		start := time.Now()
-		for i, n := 0, c.Budget(40, 320); i < n && c.NFailures() < 3; i++ {
-			one(c, genRace(c.Rng), "")
-		}
-		for i, n := 0, c.Budget(50, 400); i < n && c.NFailures() < 3; i++ {
-			one(c, genAuth(c.Rng), "")
+		nRace, nAuth := c.Budget(40, 320), c.Budget(50, 400)
+		for i := 0; (i < nRace || i < nAuth) && c.NFailures() < 3; i++ {
+			if i < nAuth {
+				one(c, genAuth(c.Rng), "")
+			}
+			if i < nRace && c.NFailures() < 3 {
+				one(c, genRace(c.Rng), "")
+			}
 		}
 		c.SetExtra("gateway_cases_wall_s", time.Since(start).Seconds())
 		n := c.Budget(700, 12000)
